@@ -21,8 +21,8 @@ PROPS = {
         "assumptions": ["Float64() relies on strconv.ParseFloat: differentially tested against exact rational rounding in the harness, not proved"],
     },
     "C15": {
-        "case_sets": ["lex"],
-        "ops": ["SPLIT"],
+        "case_sets": ["lex", "parse"],
+        "ops": ["SPLIT", "PIECES"],
         "lean_targets": ["PqlModel.Props.C15", "PqlModel.Props.C15Parse", "PqlModel.Props.C16Semantics"],
         "facts": ["keywords"],
         "rule": "SPLIT: same sources as C09 (exhaustive short strings over the scanner alphabet, which contains ';', all "
@@ -82,7 +82,7 @@ PROPS = {
         "case_sets": ["compile"],
         "ops": ["COMPILE"],
         "oracle_clauses": [r"c01-.*", r"c05-lex", r"c05-parse", r"c05-brackets", r"c12-.*", r"unreadable-.*"],
-        "lean_targets": ["PqlModel.Props.C01", "PqlModel.Props.C01LexRender", "PqlModel.Props.C01Sem", "PqlModel.Props.C01Syntactic", "PqlModel.Props.C06Operand", "PqlModel.Props.C05ParseStatement", "PqlModel.Props.C01Templates", "PqlModel.Props.C02EndToEnd", "PqlModel.Props.C05Parsed"],
+        "lean_targets": ["PqlModel.Props.C01", "PqlModel.Props.C01LexRender", "PqlModel.Props.C01Sem", "PqlModel.Props.C01Syntactic", "PqlModel.Props.C06Operand", "PqlModel.Props.C05ParseStatement", "PqlModel.Props.C01Templates", "PqlModel.Props.C02EndToEnd", "PqlModel.Props.C05Parsed", "PqlModel.Props.C02EndToEndSource"],
         "facts": ["binaryOps", "builtinIdentifiers", "knownFunctions", "writerArityGuard", "writeTemplates", "maybeParenBare", "precedence"],
         "rule": "COMPILE: hand-written corpus of expression shapes (parentheses, signs, index, in, every built-in as operand of "
                 "every operator class) + grammar-generated programs with expressions in every position; the oracle re-reads "
@@ -104,7 +104,7 @@ PROPS = {
         "case_sets": ["compile", "content"],
         "ops": ["COMPILE", "COMPILESEQ"],
         "oracle_clauses": [r"c05-.*", r"c01-keyword-function-name", r"unreadable-.*"],
-        "lean_targets": ["PqlModel.Props.C05", "PqlModel.Props.C02Split", "PqlModel.Props.C05SplitRefines", "PqlModel.Props.C05LexStatement", "PqlModel.Props.C02Semantics", "PqlModel.Props.C02Statement", "PqlModel.Props.C05ParseStatement", "PqlModel.Props.C02EndToEnd", "PqlModel.Props.C05Parsed"],
+        "lean_targets": ["PqlModel.Props.C05", "PqlModel.Props.C02Split", "PqlModel.Props.C05SplitRefines", "PqlModel.Props.C05LexStatement", "PqlModel.Props.C02Semantics", "PqlModel.Props.C02Statement", "PqlModel.Props.C05ParseStatement", "PqlModel.Props.C02EndToEnd", "PqlModel.Props.C05Parsed", "PqlModel.Props.C02EndToEndSource"],
         "facts": [],
         "rule": "COMPILE on generated, corrupted-but-accepted and adversarial-content programs; the output must lex, end in one ';', "
                 "balance brackets, parse as [WITH …] select, read only source tables or earlier CTEs, have unique generated names, "
@@ -114,7 +114,7 @@ PROPS = {
         "case_sets": ["compile"],
         "ops": ["COMPILE", "COMPILESEQ"],
         "oracle_clauses": [r"c06-.*", r"unreadable-.*"],
-        "lean_targets": ["PqlModel.Props.C06", "PqlModel.Props.C06Subst", "PqlModel.Props.C14Order", "PqlModel.Props.C06Operand"],
+        "lean_targets": ["PqlModel.Props.C06", "PqlModel.Props.C06Subst", "PqlModel.Props.C14Order", "PqlModel.Props.C06Operand", "PqlModel.Props.C02EndToEndSource"],
         "facts": ["builtinIdentifiers"],
         "rule": "COMPILE with parameter maps (names colliding with columns, constants, let names) and let chains (shadowing, "
                 "redefinition, lets after the query, uses under signs, before [, in in-lists, join conditions, row counts); the "
@@ -161,7 +161,7 @@ PROPS = {
         "case_sets": ["eval"],
         "ops": ["EVAL"],
         "oracle_clauses": [r"c02-.*", r"c05-parse", r"c05-name-capture", r"unreadable-.*"],
-        "lean_targets": ["PqlModel.Props.C02", "PqlModel.Props.C02Split", "PqlModel.Props.C05SplitRefines", "PqlModel.Props.C02Semantics", "PqlModel.Props.C02Statement", "PqlModel.Props.C02SemanticsCex", "PqlModel.Props.C05ParseStatement", "PqlModel.Props.C03Full", "PqlModel.Props.C02EndToEnd", "PqlModel.Props.C05Parsed"],
+        "lean_targets": ["PqlModel.Props.C02", "PqlModel.Props.C02Split", "PqlModel.Props.C05SplitRefines", "PqlModel.Props.C02Semantics", "PqlModel.Props.C02Statement", "PqlModel.Props.C02SemanticsCex", "PqlModel.Props.C05ParseStatement", "PqlModel.Props.C03Full", "PqlModel.Props.C02EndToEnd", "PqlModel.Props.C05Parsed", "PqlModel.Props.C02EndToEndSource"],
         "facts": ["canAttachSortFalse"],
         "rule": "EVAL: every sequence of up to 3 (quick) / 4 (thorough) of the eleven operators with fixed small arguments, a corpus of "
                 "order-sensitive pipelines and random generated pipelines over tables T U V; the emitted SQL is evaluated by the "
@@ -175,7 +175,7 @@ PROPS = {
         "ops": ["EVAL"],
         "line_regex": r"6a6f696e",      # only pipelines that contain a join
         "oracle_clauses": [r"c03-.*", r"c05-parse", r"c05-name-capture", r"unreadable-.*"],
-        "lean_targets": ["PqlModel.Props.C03", "PqlModel.Props.C02Split", "PqlModel.Props.C05SplitRefines", "PqlModel.Props.C03Semantics", "PqlModel.Props.C03Chain", "PqlModel.Props.C03ChainTake", "PqlModel.Props.C05ParseStatement", "PqlModel.Props.C03Full", "PqlModel.Props.C02EndToEnd", "PqlModel.Props.C05Parsed", "PqlModel.Props.C11Compile"],
+        "lean_targets": ["PqlModel.Props.C03", "PqlModel.Props.C02Split", "PqlModel.Props.C05SplitRefines", "PqlModel.Props.C03Semantics", "PqlModel.Props.C03Chain", "PqlModel.Props.C03ChainTake", "PqlModel.Props.C05ParseStatement", "PqlModel.Props.C03Full", "PqlModel.Props.C02EndToEnd", "PqlModel.Props.C05Parsed", "PqlModel.Props.C11Compile", "PqlModel.Props.C02EndToEndSource"],
         "facts": ["joinTypes", "leftJoinTableAlias", "rightJoinTableAlias"],
         "rule": "EVAL on pipelines with joins: all three kinds, bare / explicit / mixed conditions, operators before the join, "
                 "multi-operator right sides, nested and sequential joins (depth <= 2 random, corpus of shapes); evaluated as for C02; "
